@@ -77,11 +77,78 @@ CHECKS["C02"] = dict(engine="codec", category="proof", design_ref="DESIGN.md §5
          "KNOWN-FINDING for that generator family only.",
     technique="Coq proof of decoder canonicity/totality + correspondence + mutation-based search on byte strings")
 
+CHECKS["C04"] = dict(engine="infer", category="proof", design_ref="DESIGN.md §5 C04, §11.3",
+    text="Coq reference of type inference over node tables (constraint generation exactly as arrow.rs, unification closure with "
+         "occurs check at the end, free variables to unit): sound (every node satisfies its rule), complete (finalises iff a "
+         "finite typing exists), total, principal (the result is the least typing in the ty_le order - proved in full), order "
+         "independent under any renumbering compatible with the DAG order, bounded display of incomplete types; the unbounded "
+         "display of complete types inside errors is refuted (F-C04). The Rust union-find is tied to the reference by "
+         "correspondence on all/random construction orders; an independent python unifier is the oracle of the direct test.",
+    note="Trusted: Coq kernel, hand-written reference, harness. Open findings F-C02 (recursive unifier), F-C04 (exponential "
+         "error text), F-C04b (recursive Drop of Final) are printed as KNOWN-FINDING for their generator families only.",
+    technique="Coq proof about a reference inference algorithm + correspondence with the Rust union-find")
+CHECKS["C08"] = dict(engine="redeem", category="proof", design_ref="DESIGN.md §5 C08, §11.3",
+    text="Coq model of one pruning pass (prune_case/Hide over the tracker's IHR classes) and of the fixed-point loop: every pass "
+         "keeps all commitment roots (any hash), a successful run gives the same output and events after pruning (any jets), at "
+         "a fixed point every reachable IHR class was executed and every remaining case class took both sides, pruning again is "
+         "a no-op, witness shrinking never reaches the expect; one-pass pruning refuted (twins, shared re-typing). Principality "
+         "of the re-inferred types is compared, not proved. libsimplicity with all anti-DoS flags is the oracle of the direct test.",
+    note="Trusted: Coq kernel, hand-written model, harness replaying the prune loop for per-round IHR classes, C evaluator as oracle.",
+    technique="Coq proof of the structural pruning model + correspondence + C anti-DoS acceptance test")
+CHECKS["C12"] = dict(engine="redeem", category="proof", design_ref="DESIGN.md §5 C12, §11.3",
+    text="Coq model of the three witness routes over typed node tables (construction-time witness + finalize_unpruned / "
+         "finalize_pruned, named witness map, decoding): every route returns only witnesses of exactly their node's target type "
+         "or an error, never panics, returns typed witnesses unchanged, their serialisation decodes back exactly and the machine "
+         "writes exactly width(target) bits; the pre-fix unchecked route is refuted. Five routes compared on right/wide/narrow/"
+         "same-width/unit/missing candidates on executed and unexecuted branches.",
+    note="Trusted: Coq kernel, Ty/Ty.v, harness; the human-readable parser and SimpleFinalizer are not modelled (the latter is "
+         "outside the claim).",
+    technique="Coq proof over the typed-value specification + correspondence over all routes")
+CHECKS["C03"] = dict(engine="cdiff", category="other", design_ref="DESIGN.md §5 C03, §11.3",
+    text="No theorem can mention the C code (no verified-C front end is installed), so this is a differential check: Rust "
+         "decode/typecheck verdict, CMR, AMR, IHR and cost vs a staged port of libsimplicity's pipeline (cross-checked against "
+         "run_program) on generated well-typed Elements programs (pruned and unpruned), bit-level and structural mutations and "
+         "random byte strings, filtered by libsimplicity's documented limits; plus a Coq cost reference (12 theorems: witness "
+         "independence, monotonicity, saturation, Rust formula = C formula below 2^32 widths) compared three-way with Rust and C.",
+    note="Level other: the universally quantified clause rests on the comparison; the Coq theorems are about the cost reference "
+         "and the verdict classification only.",
+    technique="Rust/C differential testing + Coq cost reference (three-way comparison)")
+CHECKS["C06"] = dict(engine="cdiff", category="other", design_ref="DESIGN.md §5 C06, §11.3",
+    text="Differential check: verdict kind of BitMachine::exec vs evalTCOExpression without anti-DoS flags on the same marshalled "
+         "C environment, over generated 1->1 Elements programs and a generated family of transaction environments, plus "
+         "environment probes (one-jet programs whose verdict follows from the environment parameters alone). The Coq part pins "
+         "the verdict classification (injective kind codes, meaning of 'same verdict'); C05 proves the Rust machine model computes "
+         "the semantics.",
+    note="Level other: the C evaluator and C jets are opaque; no theorem mentions them.",
+    technique="Rust/C differential testing + Coq classification lemmas")
+CHECKS["C15"] = dict(engine="env", category="other", design_ref="DESIGN.md §5 C15, §11.3",
+    text="Coq specification of 63 introspection jets as functions of an abstract transaction (selection, absence, encoding, "
+         "issuance/pegin/annex classification) with 11 theorems (results typed for all transactions and indices, in/out of "
+         "range behaviour, current_X = input_X(current), annex, pegin follows the flag; old marshalling refuted), compared with "
+         "one-jet programs executed through ElementsEnv::new + BitMachine on generated transactions; all 91 jets and the "
+         "signature hash are also compared with an oracle written against the elements crate. Pointer lifetimes and Drop are "
+         "only exercised (valgrind in the thorough tier).",
+    note="Level other: SHA-256 values are data supplied by the harness; the C marshalling code is compared, not proved.",
+    technique="Coq specification + theorems about it, compared with executed jets; independent oracle")
+CHECKS["C20"] = dict(engine="conc", category="other", design_ref="DESIGN.md §5 C20, §11.3",
+    text="Coq model of the shared state (atomic name counter, per-context inference state owned by one thread, immutable shared "
+         "data) with the theorem that every interleaving gives each thread its sequential results up to an injective renaming "
+         "of fresh names (and equal results with names erased), names never repeat; forced-schedule correspondence on names; "
+         "stress comparison of 14 workload kinds on 2-16 threads against sequential runs, uniqueness test of fresh names, "
+         "helgrind sample. Data races and the OS scheduler are outside any Coq model: this part is a test.",
+    note="Level other: a theorem about the modelled shared state plus a stress test over the schedules the OS produced.",
+    technique="Coq schedule-independence theorem for the modelled state + concurrent stress/differential test")
+
 NOT_YET = {}
 
 ENGINES = [
     dict(name="bits", path="coq/Bits", serves_properties=["C13"], kind_free_text="Coq model + proofs of bit reader/writer/natural code"),
     dict(name="budget", path="coq/Budget", serves_properties=["C19"], kind_free_text="Coq model + proofs of budget/padding arithmetic over translated constants"),
+    dict(name="infer", path="coq/Infer", serves_properties=["C04"], kind_free_text="Coq reference type inference + proofs"),
+    dict(name="redeem", path="coq/Redeem", serves_properties=["C08", "C12"], kind_free_text="Coq models of pruning and witness routes"),
+    dict(name="cdiff", path="coq/Cdiff", serves_properties=["C03", "C06"], kind_free_text="Rust/C differential harness + Coq cost reference"),
+    dict(name="env", path="coq/Env", serves_properties=["C15"], kind_free_text="Coq transaction/jet specification + executed-jet comparison"),
+    dict(name="conc", path="coq/Conc", serves_properties=["C20"], kind_free_text="Coq interleaving model + concurrent stress harness"),
     dict(name="codec", path="coq/Codec", serves_properties=["C01", "C02"], kind_free_text="Coq model of the program/witness bit codec + proofs"),
     dict(name="value", path="coq/Value", serves_properties=["C10", "C11"], kind_free_text="byte-level Coq model of Value + refinement proofs"),
     dict(name="policy", path="coq/Policy", serves_properties=["C16"], kind_free_text="Coq model of policy compilation/satisfaction/sorting"),
